@@ -224,12 +224,13 @@ def load_known():
     return json.load(open(p))
 
 
-def known_open(prop_id, case_line, outcome):
+def known_open(prop_id, case_line, outcome, why=""):
     for k in load_known():
         if k.get("property") != prop_id or k.get("status") != "open":
             continue
         sig = k.get("signature", {})
-        if re.search(sig.get("case_regex", "$^"), case_line) and re.search(sig.get("outcome_regex", ""), outcome or ""):
+        if (re.search(sig.get("case_regex", "$^"), case_line) and re.search(sig.get("outcome_regex", ""), outcome or "")
+                and re.search(sig.get("why_regex", ""), why or "")):
             return k
     return None
 
@@ -290,7 +291,7 @@ class Report:
         return rc
 
 
-def paired_run(rep, cases, oracle, nontrivial, profile="dev", need_driver=True, max_report=5):
+def paired_run(rep, cases, oracle, nontrivial, profile="dev", need_driver=True, max_report=5, canon_pair=None):
     """cases: list of case lines `<stream> <id> …`.  Runs impl and model, diffs, applies the
     oracle (impl only).  `oracle(case_line, impl_outcome) -> None | str(failure)`.
     `nontrivial(case_line, impl_outcome) -> hashable key | None`."""
@@ -322,14 +323,15 @@ def paired_run(rep, cases, oracle, nontrivial, profile="dev", need_driver=True, 
             fails.append((by_id[cid], io, f))
         if model_ok:
             mo = model.get(cid)
-            if mo != io:
+            same = canon_pair(by_id[cid], io, mo) if canon_pair else (mo == io)
+            if not same:
                 diffs.append((by_id[cid], io, mo))
         k = nontrivial(by_id[cid], io)
         if k is not None:
             keys.add(k)
             hist[str(k[0])] = hist.get(str(k[0]), 0) + 1
     for case, io, why in fails:
-        k = known_open(rep.prop, case, io)
+        k = known_open(rep.prop, case, io, why)
         if k:
             msg = k["what"]
             if msg not in rep.known:
